@@ -1808,6 +1808,20 @@ func main() {
 	for o, n := range obsCount {
 		sum.Extra["observation-count:"+o] = n
 	}
+	// the most telling violation first: a forged report body accepted under a fresh key on a genuine Intel vector
+	sort.SliceStable(sum.Violations, func(i, j int) bool {
+		pr := func(v any) int {
+			c, _ := v.(map[string]any)["case"].(CaseD)
+			switch {
+			case strings.Contains(c.Note, "fresh-key") && strings.Contains(c.Note, "forged-body") && !c.Synth:
+				return 0
+			case strings.Contains(c.Note, "fresh-key"):
+				return 1
+			}
+			return 2
+		}
+		return pr(sum.Violations[i]) < pr(sum.Violations[j])
+	})
 	wb.Close()
 	sum.Extra["fingerprints"] = map[string]any{"distinct": len(fpSeen), "collisions": 0}
 	sum.Write(*out)
